@@ -164,6 +164,37 @@ def run_task(task):
                         raise Violation("wire_safe", {"kind": "n", "n": n}, "no 00/FF", exp.hex())
                     if n >= B:
                         res.nontrivial(("n", n))
+                elif case[0] == "sub":
+                    # every integer is an integer: bool, IntEnum members and other int subclasses encode like ints
+                    import enum as _enum
+                    n = case[1]
+
+                    class _MyInt(int):
+                        pass
+                    variants = [_MyInt(n), _enum.IntEnum("_E", {"M": n}).M]
+                    if n in (0, 1):
+                        variants.append(bool(n))
+                    exp = refcodec.ref_encode(n)
+                    for v in variants:
+                        try:
+                            got = enc_f(v)
+                        except Exception as e:  # noqa
+                            got = f"raised {type(e).__name__}"
+                        if got != exp:
+                            raise Violation("encode_accepts_int_subclasses", {"kind": "sub", "n": n}, exp.hex(),
+                                            got.hex() if isinstance(got, bytes) else got, type(v).__name__)
+                    res.nontrivial(("sub", n))
+                elif case[0] == "reuse":
+                    # one receive buffer, refilled in place between decodes (also as a memoryview window)
+                    buf = bytearray(4)
+                    for m in case[1]:
+                        buf[:] = refcodec.ref_encode(m)
+                        for view in (buf, memoryview(buf)):
+                            g = dec_f(view)
+                            if g != m:
+                                raise Violation("decode_independent_of_call_history", {"kind": "reuse", "ns": list(case[1])},
+                                                m, g, "same buffer object refilled in place")
+                    res.nontrivial(("reuse",) + tuple(case[1]))
                 elif case[0] == "seq":
                     # history independence: the encoding of the last number must not depend on
                     # which numbers were encoded / decoded before it
@@ -201,7 +232,8 @@ def run_task(task):
             anyw = st.one_of(ints, widths, st.integers(0, 252), st.integers(253, 64008), st.integers(64009, B ** 3 - 1))
             seqs = st.lists(anyw, min_size=2, max_size=4).map(tuple)
             strat = st.one_of(st.tuples(st.just("n"), ints), st.tuples(st.just("b"), bts),
-                              st.tuples(st.just("seq"), seqs))
+                              st.tuples(st.just("seq"), seqs), st.tuples(st.just("reuse"), seqs),
+                              st.tuples(st.just("sub"), st.one_of(anyw, st.integers(0, 1))))
             hyp.campaign(strat, oracle, task["n"], task["seed"], res)
     except Violation as v:
         res.violation(v)
@@ -230,6 +262,24 @@ def plan(tier, seed):
 def replay(case):
     c = loader.core()
     enc_f, dec_f = c.data.encode_number, c.data.decode_number
+    if case["kind"] in ("sub", "reuse"):
+        import enum as _enum
+        if case["kind"] == "sub":
+            n = case["n"]
+            for v in (type("_MyInt", (int,), {})(n), _enum.IntEnum("_E", {"M": n}).M):
+                try:
+                    got = enc_f(v)
+                except Exception as e:  # noqa
+                    got = f"raised {type(e).__name__}"
+                if got != refcodec.ref_encode(n):
+                    raise Violation("encode_accepts_int_subclasses", case, refcodec.ref_encode(n).hex(), repr(got))
+        else:
+            buf = bytearray(4)
+            for m in case["ns"]:
+                buf[:] = refcodec.ref_encode(m)
+                if dec_f(buf) != m or dec_f(memoryview(buf)) != m:
+                    raise Violation("decode_independent_of_call_history", case, m, dec_f(buf))
+        return
     if case["kind"] == "opt":
         from vlib import optrun
         job = case["job"]
